@@ -147,11 +147,11 @@ PROPS["C13"] = {
 PROPS["C14"] = {
     "title": "Status tells the truth about replica sets and pods",
     "level": "exploration",
-    "level_text": "Stateful property test: after every successful EDS reconcile the stored status is compared with a reference implementation of the documented status function applied to the replica-set statuses that reconcile read (sums, desired/upToDate from active and canary set, state, reason, Canary-Paused/Canary-Failed conditions); after every active/canary sync 0<=available<=ready<=current<=desired; after stabilisation the counters are compared with the pods and nodes that exist.",
+    "level_text": "Stateful property test: after every successful EDS reconcile the stored status is compared with a reference implementation of the documented status function applied to the replica-set statuses that reconcile read (sums, desired/upToDate from active and canary set, state, reason, Canary-Paused/Canary-Failed conditions); after every active/canary sync 0<=available<=ready<=current<=desired; after stabilisation the counters are compared with the pods and nodes that exist. A function-level test feeds the status function alone with 1-3 replica sets carrying generated counters (incl. leftover sets with non-zero counters), conditions, roles and annotation settings.",
     "level_note": SM_NOTE,
-    "technique": "stateful property-based testing (rapid) against a reference status function + quiescent-state oracle",
-    "quick": {"jobs": [rapid_job("sm", "^TestC14SM$", 500, shards=4)]},
-    "thorough": {"jobs": [rapid_job("sm", "^TestC14SM$", 2500, shards=16, timeout="50m")]},
+    "technique": "stateful property-based testing (rapid) against a reference status function + quiescent-state oracle + function-level property test of the status function",
+    "quick": {"jobs": [rapid_job("sm", "^TestC14SM$", 500, shards=4), rapid_job("function", "^TestC14StatusFunction$", 3000, shards=2)]},
+    "thorough": {"jobs": [rapid_job("sm", "^TestC14SM$", 2500, shards=12, timeout="50m"), rapid_job("function", "^TestC14StatusFunction$", 40000, shards=4)]},
 }
 
 PROPS["C03"]["quick"]["jobs"].append(rapid_job("sm", "^TestC09SM$", 60, shards=2))
